@@ -1,4 +1,4 @@
-from hdrcommon import GEN_RULE, hdr_spec
+from hdrcommon import GEN_RULE, hdr_spec, spine_scripts
 from meta import COMMON_NOTE
 
 SPEC = hdr_spec(
@@ -7,7 +7,7 @@ SPEC = hdr_spec(
     rule=GEN_RULE + "`crashsave` / `crashclean` ops: the harness records the real Write/Remove sequence of the Save/Clean, rebuilds the storage image after EVERY prefix "
          "(empty and full included), loads each in a fresh repository and reports success, tip, work and linkage from genesis; the model does the same from its own event "
          "list; enumeration of crash points is complete per history; non-trivial = at least 8 submissions",
-    props_file="C12",
+    props_file="C12", extra=spine_scripts(['files']),
     partial_note="the quantifier over crash points is discharged by complete enumeration per history (fault enumeration), the quantifier over histories by generated histories; "
                  "the theorems give the write order the argument rests on, not the full 'every prefix loads' statement.")
 
